@@ -2,4 +2,12 @@ package main
 
 import "qedverif/cq"
 
-func dispatch9(cmd string, out *cq.Out, seed uint64, tier, arg string) bool { return false }
+func dispatch9(cmd string, out *cq.Out, seed uint64, tier, arg string) bool {
+	switch cmd {
+	case "backup":
+		backupCmd(out, seed, tier)
+	default:
+		return dispatch10(cmd, out, seed, tier, arg)
+	}
+	return true
+}
